@@ -21,6 +21,10 @@ RULE = (
     "accept. Output judged only for contradiction. Signing subcommands: exit 0 only if the file was actually signed (expected bytes / "
     "reference-valid GnuPG entry), else non-zero and file unchanged. distinct = (entry point, pair class | signing scenario)."
 )
+RULE_ADDENDUM = (
+    'Additional: exit-status sweep over rejection sizes (threshold 1..559, 0 or 1 good signature; a status is 8 bits wide), sign-artifacts scenarios with re-signing after a hot-fix, planted own-key entries and key values with leading / trailing zeros, closed stdout pipe.'
+)
+RULE = RULE + " " + RULE_ADDENDUM
 LIMITS = ["the conda plugin entry point is not exercised (conda is not installed in /venv)", "about 0.25 s per process bounds the number of pairs"]
 ASSUMPTIONS = ["in-process verdict of the same tree is the reference for the CLI (the library's own soundness is C01-C06's business)"]
 
